@@ -953,3 +953,27 @@ pub fn replay(factory: &ScenarioFactory, prefix: &[Choice], bounds: Cost) -> Run
     let _ = run_once(factory, &[], bounds, None, 2000); // warm-up, see explore()
     run_once(factory, prefix, bounds, None, 2000)
 }
+
+/// Explore many small scenarios: each exploration runs single-threaded, `default_workers()` of them at a
+/// time (avoids the per-exploration thread start-up cost and oversubscription). Results in input order.
+pub fn explore_many(jobs: Vec<ScenarioFactory>, cfg_of: &(dyn Fn(usize) -> ExploreConfig + Sync)) -> Vec<ExploreStats> {
+    let n = jobs.len();
+    let next = AtomicU64::new(0);
+    let out: Mutex<Vec<Option<ExploreStats>>> = Mutex::new((0..n).map(|_| None).collect());
+    let jobs = &jobs;
+    std::thread::scope(|s| {
+        for _ in 0..default_workers().max(1) {
+            s.spawn(|| loop {
+                let i = next.fetch_add(1, Ordering::SeqCst) as usize;
+                if i >= n {
+                    return;
+                }
+                let mut cfg = cfg_of(i);
+                cfg.workers = 1;
+                let st = explore(jobs[i].clone(), &cfg);
+                out.lock().unwrap()[i] = Some(st);
+            });
+        }
+    });
+    out.into_inner().unwrap().into_iter().map(|o| o.expect("explored")).collect()
+}
